@@ -111,10 +111,21 @@ func renderA(root string, c caseA) error {
 	return writeBuild(filepath.Join(root, "p"), map[string]any{"targets": targets, "aliases": aliases})
 }
 
+// currentRootBase is the name of the workspace directory of the case being rendered (the path component "SIB" stands for a
+// sibling directory whose name extends it)
+var currentRootBase string
+
 func outString(o outSpec) string {
-	p := strings.Join(o.Path, "/")
-	if len(o.Path) > 1 && o.Path[len(o.Path)-1] == "." {
-		p = strings.Join(o.Path[:len(o.Path)-1], "/") + "/"
+	comps := make([]string, len(o.Path))
+	for i, c := range o.Path {
+		if c == "SIB" {
+			c = currentRootBase + "-x"
+		}
+		comps[i] = c
+	}
+	p := strings.Join(comps, "/")
+	if len(comps) > 1 && comps[len(comps)-1] == "." {
+		p = strings.Join(comps[:len(comps)-1], "/") + "/"
 	}
 	if o.Abs {
 		p = "/" + p
@@ -276,6 +287,7 @@ func analysisDriver(args []string) error {
 		if err := os.WriteFile(filepath.Join(root, "grog.toml"), nil, 0644); err != nil {
 			return err
 		}
+		currentRootBase = filepath.Base(root)
 		if err := render(root); err != nil {
 			return err
 		}
